@@ -24,6 +24,7 @@ type c03bStep struct {
 	Secret  string `json:"secret"`  // the secret the application's authenticator knows as right is "right-secret"
 	Encoded string `json:"encoded"` // base64 | raw (sent as is)
 	Name    string `json:"name"`    // identity name: uuid | plain
+	NoAuth  bool   `json:"noAuth,omitempty"` // the envelope names the scheme but carries no authentication object at all
 }
 
 type c03bCase struct {
@@ -124,16 +125,18 @@ func runC03Builder(c *c03bCase) *c03bObs {
 		if st.Encoded == "base64" {
 			enc = base64.StdEncoding.EncodeToString([]byte(st.Secret))
 		}
-		switch st.Scheme {
-		case "guest":
+		switch {
+		case st.NoAuth:
+			s.Scheme = lime.AuthenticationScheme(st.Scheme)
+		case st.Scheme == "guest":
 			s.SetAuthentication(&lime.GuestAuthentication{})
-		case "transport":
+		case st.Scheme == "transport":
 			s.SetAuthentication(&lime.TransportAuthentication{})
-		case "plain":
+		case st.Scheme == "plain":
 			s.SetAuthentication(&lime.PlainAuthentication{Password: enc})
-		case "key":
+		case st.Scheme == "key":
 			s.SetAuthentication(&lime.KeyAuthentication{Key: enc})
-		case "external":
+		case st.Scheme == "external":
 			s.SetAuthentication(&lime.ExternalAuthentication{Token: st.Secret, Issuer: "issuer.example"})
 		}
 		_ = peer.SendEnvelope(s)
@@ -183,6 +186,13 @@ func judgeC03Builder(c *c03bCase, obs *c03bObs, o *Outcome) {
 	if !containsStr(c.Enabled, last.Scheme) {
 		o.Fail("C03/established-with-unoffered-scheme/builder", "established under scheme %s, enabled %v", last.Scheme, c.Enabled)
 		return
+	}
+	if last.NoAuth {
+		o.Class("no-authentication-object")
+		if last.Scheme != "guest" {
+			o.Fail("C03/established-without-credentials/builder", "established under scheme %s by an envelope that carried no authentication object at all", last.Scheme)
+			return
+		}
 	}
 	switch last.Scheme {
 	case "plain", "key", "external":
@@ -241,6 +251,7 @@ func TestC03Builder(t *testing.T) {
 				Secret:  rapid.SampledFrom([]string{rightSecret, "wrong", "", "right-secret ", "cmlnaHQtc2VjcmV0", "not base64!"}).Draw(rt, "secret"),
 				Encoded: rapid.SampledFrom([]string{"base64", "base64", "raw"}).Draw(rt, "encoded"),
 				Name:    rapid.SampledFrom([]string{"uuid", "plain"}).Draw(rt, "name"),
+				NoAuth:  rapid.IntRange(0, 4).Draw(rt, "noAuth") == 0,
 			})
 		}
 		o := &Outcome{}
